@@ -7,12 +7,16 @@ source shows up), the cached max_node is never compared."""
 from common import *
 
 chk = Check('C12')
-chk.extra['rule'] = ('op sequences over a pool of <= 5 real Molecule objects with arbitrary integer keys (sparse, negative, '
-                     're-added); after every op the whole pool is dumped and compared with the model; a sequence is '
-                     'non-trivial if it contains >= 1 removal or merge and >= 1 interaction; distinct = distinct op sequence')
+chk.extra['rule'] = ('op sequences over a pool of real Molecule objects with arbitrary integer keys (sparse, negative, '
+                     're-added) and up to 3 real System objects that REFER to pool members (add_molecule, System.copy, '
+                     'MergeAllMolecules, MergeChains; remove_matching_interaction and prune_edges_* among the molecule ops); '
+                     'after every op the whole pool and the molecule lists of all systems are dumped and compared with the model; '
+                     'a sequence is non-trivial if it contains >= 1 removal or merge and >= 1 interaction; distinct = distinct op '
+                     'sequence; add_edges_at_distance is checked by the oracle only (cases edge-dist-*)')
 chk.lean(['VermouthProps.C12'], 'driver_c12')
 
 import networkx as nx
+import numpy as np
 from vermouth.molecule import Molecule, Block, Interaction, DeleteInteraction
 from vermouth.system import System
 from vermouth.processors.merge_all_molecules import MergeAllMolecules
@@ -225,9 +229,9 @@ def gen_template_attrs(rng, m, atoms):
         t = [None, None, None, None]
         for pos, key in enumerate(['atomname', 'resid', 'charge_group', 'chain']):
             r = rng.random()
-            if r < 0.25 and d.get(key) is not None:
+            if r < 0.30 and d.get(key) is not None:
                 t[pos] = d[key]
-            elif r < 0.30:
+            elif r < 0.33:
                 t[pos] = gen_attrs(rng)[pos]
         out.append(t)
     if atoms and rng.random() < 0.15:
@@ -237,19 +241,21 @@ def gen_template_attrs(rng, m, atoms):
 
 def gen_sys_op(rng, pool, systems):
     ns, n = len(systems), len(pool)
-    if ns == 0 or (ns < 3 and rng.random() < 0.15):
+    if ns == 0 or (ns < 3 and rng.random() < 0.07):
         return ('newsys',)
     s = rng.randrange(ns) if rng.random() < 0.95 else ns + 1
     r = rng.random()
-    if r < 0.45:
+    if s < ns and len(systems[s].molecules) < rng.choice([1, 2, 3, 4]) and rng.random() < 0.8:
+        r = 0.0              # fill the system first
+    if r < 0.30:
         # prefer molecules that are not yet in the system (an object merged into itself is outside the model)
         cand = [k for k in range(n) if s >= ns or all(pool[k] is not m for m in systems[s].molecules)]
         if cand and rng.random() < 0.9:
             return ('addmol', s, rng.choice(cand))
         return ('addmol', s, rng.randrange(n + 1))
-    if r < 0.55 and n < 9:
+    if r < 0.42 and n < 9:
         return ('copysys', s)
-    if r < 0.75:
+    if r < 0.68:
         return ('mergeall', s)
     rr = rng.random()
     if rr < 0.3:
@@ -294,16 +300,16 @@ def gen_op(rng, pool, systems=None):
                 rng.sample(CITES, rng.randint(0, 2)))
     if r < 0.75:
         its = [(t, x) for t in m.interactions for x in m.interactions[t]] if m is not None else []
-        if rng.random() < 0.45:
+        if rng.random() < (0.55 if its else 0.1):
             # remove_matching_interaction: template from an existing interaction, loosened or spoiled
-            if its and rng.random() < 0.8:
+            if its and rng.random() < 0.9:
                 t, x = rng.choice(its)
                 atoms, pr, v = list(x.atoms), x.parameters[0], x.meta.get('version')
             else:
                 t, atoms, pr, v = rng.choice(TYPES), [gen_key(rng, m) for _ in range(rng.randint(1, 2))], 'p', None
-            pr = rng.choice([None, None, pr, pr, 'zz'])
+            pr = rng.choice([None, None, pr, pr, pr, 'zz'])
             # the harness stores version 0 as "no version key", so a template never asks for version 0
-            v = rng.choice([None, None, v, v, 1, 2]) or None
+            v = rng.choice([None, None, None, v, v, 2]) or None
             aa = gen_template_attrs(rng, m, atoms) if rng.random() < 0.4 else None
             return ('rmmatch', i, t, atoms, pr, v, aa)
         if its and rng.random() < 0.7:
@@ -403,6 +409,16 @@ def system_oracle(op, out, before, after, sys_before, sys_after):
     if s >= len(sys_before):
         return errs
     idxs = sys_before[s]
+    if kind == 'mergeall':
+        chk.count('mergeall_%s_operands_%s' % (out, min(len(idxs), 4)))
+    if kind == 'mergechains' and out != 'badindex':
+        allc, chains = bool(op[3]), list(op[2])
+        if not ((allc and chains) or (not allc and not chains)):
+            nsel = sum(1 for k in idxs if allc or all(r[4] in chains for r in before[k][0]))
+            chk.count('mergechains_%s_selected_%s_of_%s' % (out, 'none' if nsel == 0 else 'all' if nsel == len(idxs) else 'one' if nsel == 1 else 'some',
+                                                            min(len(idxs), 4)))
+        else:
+            chk.count('mergechains_%s_badargs' % out)
     if kind == 'addmol' and out == 'ok':
         if sys_after[s] != idxs + [op[2]] or after != before:
             errs.append('add_molecule did more than append the reference')
@@ -509,10 +525,11 @@ def run_sequence(ops):
         if op[0] == 'rmmatch':
             b, a = (before[op[1]], after[op[1]]) if op[1] < len(before) else (None, None)
             if b is not None:
+                chk.count('rmmatch_%s_%s' % (out, 'delete_interaction' if op[6] is not None else 'interaction'))
                 if out == 'ok' and (len(a[2]) != len(b[2]) - 1 or any(x not in b[2] for x in a[2]) or a[:2] + a[3:] != b[:2] + b[3:]):
                     errs.append('step %d rmmatch: did not remove exactly one interaction and nothing else' % step)
                 if out == 'ok':
-                    gone = [x for x in b[2] if b[2].count(x) != a[2].count(x)]
+                    gone = [x for k, x in enumerate(b[2]) if b[2].count(x) != a[2].count(x) and x not in b[2][:k]]
                     if len(gone) != 1 or gone[0][0] != op[2] or gone[0][1] != list(op[3]) or (op[4] is not None and gone[0][2] != op[4]) \
                             or (op[5] is not None and gone[0][3] != op[5]):
                         errs.append('step %d rmmatch: removed %r, which does not match the template' % (step, gone))
@@ -577,9 +594,10 @@ sequences = []
 for ops in load_corpus():
     sequences.append(ops)
 rng = chk.rng('ops')
-NSEQ = 2000 if chk.thorough else 300
+NSEQ = 2000 if chk.thorough else 500
 for s in range(NSEQ):
     L = rng.choice([5, 10, 20, 40]) if not chk.thorough else rng.choice([10, 40, 100, 300])
+    SYS_RATE = rng.choice([0.0, 0.1, 0.3])          # a third of the histories are system-heavy
     ops, _, _, _ = gen_sequence(rng, L)
     sequences.append(ops)
 
@@ -610,4 +628,60 @@ for si, (ops, outs, dumps, errs, start, n) in enumerate(per_seq):
     chk.case('seq-%d' % si, [op_line(o) for o in ops],
              impl if impl != mo else 'agree(%d steps)' % len(ops), mo if impl != mo else 'agree(%d steps)' % len(ops),
              errs[:3], nontriv)
+
+# ---- edge_tuning.add_edges_at_distance: oracle only (positions are not part of the model) ----------------------
+# integer grid positions and thresholds k + 0.5, so every distance is far from the threshold and the expectation
+# can be computed exactly on squared integers
+erng = chk.rng('edge-dist')
+for ci in range(600 if chk.thorough else 80):
+    m = Molecule(nrexcl=1)
+    keys = erng.sample(range(-4, 12), erng.randint(0 if erng.random() < 0.1 else 2, 7))
+    pos = {}
+    for k in keys:
+        kw = attrs_kw(*gen_attrs(erng))
+        if erng.random() < 0.93:
+            pos[k] = [erng.randint(0, 3) for _ in range(3)]
+            kw['position'] = np.array(pos[k], dtype=float)
+        m.add_node(k, **kw)
+    for _ in range(erng.randint(0, 4)):
+        if len(keys) >= 2:
+            m.add_edge(*erng.sample(keys, 2))
+    for _ in range(erng.randint(0, 3)):
+        if keys:
+            m.add_interaction('bonds', tuple(erng.choice(keys) for _ in range(2)), ['p'])
+    pick = lambda: [erng.choice(keys + [99]) if erng.random() < 0.9 else 77 for _ in range(erng.randint(0 if erng.random() < 0.15 else 1, 4))] if keys else []
+    sel_a, sel_b = pick(), pick()
+    thr2x4 = erng.choice([1, 9, 25])                       # (2 * threshold)^2 for thresholds 0.5, 1.5, 2.5
+    before = dump_mol(m)
+    try:
+        edge_tuning.add_edges_at_distance(m, (thr2x4 ** 0.5) / 2, sel_a, sel_b)
+        out = 'ok'
+    except KeyError:
+        out = 'keyerror'
+    except ValueError:
+        out = 'valueerror'                                 # np.stack of an empty selection
+    after = dump_mol(m)
+    chk.count('edge_dist_' + out)
+    errs = ['add_edges_at_distance: ' + e for e in check_consistency([m])]
+    if after[0] != before[0]:
+        errs.append('add_edges_at_distance changed or dropped atoms')
+    if after[2:] != before[2:]:
+        errs.append('add_edges_at_distance changed interactions, citations or nrexcl')
+    old_e, new_e = {tuple(e) for e in before[1]}, {tuple(e) for e in after[1]}
+    if not old_e <= new_e:
+        errs.append('add_edges_at_distance dropped a bond')
+    if out != 'ok' and new_e != old_e:
+        errs.append('add_edges_at_distance failed with %s but changed the bonds' % out)
+    A, B = set(sel_a) & set(keys), set(sel_b) & set(keys)
+    for u, v in new_e - old_e:
+        if not ((u in A and v in B) or (v in A and u in B)):
+            errs.append('add_edges_at_distance: new bond (%r, %r) is not between the selections' % (u, v))
+    if out == 'ok':
+        for u in A:
+            for v in B:
+                d2x4 = 4 * sum((x - y) ** 2 for x, y in zip(pos[u], pos[v]))
+                if u != v and (d2x4 < thr2x4) != ((min(u, v), max(u, v)) in new_e) and (min(u, v), max(u, v)) not in old_e:
+                    errs.append('add_edges_at_distance: pair (%r, %r) at squared distance %s/4, threshold^2 %s/4' % (u, v, d2x4, thr2x4))
+    chk.case('edge-dist-%d' % ci, line('adddist', keys, [pos.get(k) for k in keys], sel_a, sel_b, thr2x4),
+             out + ' ' + enc(after[1]), None, errs[:3], bool(new_e - old_e))
 chk.finish()
